@@ -221,6 +221,9 @@ def _horizon_value(ix, cls, f, nodes):
             if {repr(a), repr(b)} == {'c0', 'c1'}:
                 return _sym('max(c0,c1)')
             return _sym('max(%s)' % ','.join(sorted([repr(a), repr(b)])))
+        if isinstance(e, ast.Call) and isinstance(e.func, ast.Name) and e.func.id in ('min', 'sum', 'abs') and e.args:
+            args = [alg.AlgEval(env, leaf).ev(x) for x in e.args]
+            return _sym('%s(%s)' % (e.func.id, ','.join(sorted(repr(a) for a in args))))
         s = ast.unparse(e)
         if s == '%s.end' % nodep:
             return _sym('END')
